@@ -49,6 +49,25 @@ theorem operand_outside (s : Spectrum) (lo hi tol fill g : ℚ) (h : g < lo - to
   · have : ¬ g ≤ hi + tol := not_le.mpr h
     simp [operandAt, this]
 
+/-- "the result is a new *spectrum*": the common grid is a valid wavelength grid (positive, strictly increasing — the
+`Spectrum` constructor cannot refuse it) and carries one value per wavelength -/
+theorem ufunc_result_valid (op : ℚ → ℚ → ℚ) (s1 s2 : Spectrum) (m : Sampling) (fill : ℚ) (r : Spectrum)
+    (h : ufunc op s1 s2 m fill = .ok r) (lo1 hi1 lo2 hi2 dw : ℚ)
+    (h1 : minL s1.wave = some lo1) (h2 : maxL s1.wave = some hi1) (h3 : minL s2.wave = some lo2) (h4 : maxL s2.wave = some hi2)
+    (hs : samplingOf m s1.wave s2.wave = some dw) (hdw : 0 < dw) (hpos : 0 < min lo1 lo2)
+    (hspan : gridTol dw < max hi1 hi2 - min lo1 lo2) :
+    validWave r.wave = true ∧ r.wave.length = r.value.length := by
+  obtain ⟨a1, b1, a2, b2, d, e1, e2, e3, e4, e5, hw, hv⟩ := ufunc_pointwise op s1 s2 m fill r h
+  rw [h1] at e1; rw [h2] at e2; rw [h3] at e3; rw [h4] at e4; rw [hs] at e5
+  cases e1; cases e2; cases e3; cases e4; cases e5
+  have hN := gridNum_pos _ _ _ hdw hspan
+  constructor
+  · rw [hw, commonGrid_eq _ _ _ (by omega)]
+    have htol : 0 ≤ gridTol dw := by rw [gridTol_eq]; exact div_nonneg (le_of_lt hdw) (by norm_num)
+    exact linspace_valid _ _ _ hpos (by linarith) (by omega)
+  · rw [hv]; simp
+
+
 /-- the operands seen from a grid point, against the *mathematical* interpolant (`IsLinInterp`, defined in
 Lemmas/SpecArith.lean by the segment formula, without reference to the model's `seg`/`interpAt`/`operandAt`): inside the
 operand's own range `Sᵢ(g)` is the value at `g` of the piecewise-linear function through its samples; beyond the
